@@ -98,7 +98,7 @@ fn main() {
     let mut case = 0;
     while case < n {
         let (nws, next) = (rng.range(2, 5) as usize, rng.below(4) as usize);
-        let gspec = GraphSpec::random(&mut rng, nws, next);
+        let gspec = GraphSpec::random_cyclic(&mut rng, nws, next);
         let graph: PackageGraph = gspec.build();
         let pcx = ParseContext::new(&graph);
         // model-side description of the graph, indices = positions in gspec.pkgs
@@ -107,6 +107,7 @@ fn main() {
         let edges: Vec<String> = gspec.pkgs.iter().map(|p| if p.deps.is_empty() { "_".to_string() } else { p.deps.iter().map(|(j, _)| j.to_string()).collect::<Vec<_>>().join(".") }).collect();
         let has_ext_path = gspec.pkgs.iter().enumerate().any(|(i, p)| p.workspace && p.deps.iter().any(|(j, _)| !gspec.pkgs[*j].workspace && gspec.pkgs[*j].deps.iter().any(|(k, _)| gspec.pkgs[*k].workspace && !p.deps.iter().any(|(d, _)| d == k)) && i != *j));
         if has_ext_path { *dist.entry("graph:path-through-non-workspace".into()).or_insert(0) += 1; }
+        if gspec.has_back_edge() { *dist.entry("graph:dev-dependency-cycle-candidates".into()).or_insert(0) += 1; }
         // binaries: every test-capable target of every workspace package
         let mut bins: Vec<(usize, String, String, String)> = Vec::new(); // (pkg idx, id, name, kind)
         for pkg in graph.resolve_workspace().packages(DependencyDirection::Forward) {
